@@ -113,7 +113,7 @@ func Start(p *Plan) error {
 		trace = f
 	}
 	if p.MaxOps == 0 {
-		p.MaxOps = 100000
+		p.MaxOps = 400000
 	}
 	simOn = true
 	return nil
